@@ -1,5 +1,1183 @@
-//! (stub; being written)
+//! C15 — text in string arguments and metadata survives compile and decompile unchanged.
+//!
+//! Bounded exhaustive enumeration, no randomness:
+//!   characters  = every single-byte and two-byte Shift-JIS code that decodes to one character and
+//!                 re-encodes to the same bytes (encoding_rs is the trusted table), NUL excluded;
+//!   strings     = 'a'^p . c for a few p around block/buffer boundaries, c . 'a', c^L for L in 0..=300,
+//!                 sequences of <= 3 strings with/without the '|' furigana marker;
+//!   targets     = user signatures (z/m/p, bs=/len=/nulless/mask/furibug) carried by MSG and ANM scripts,
+//!                 the built-in text instructions of every MSG game, STD 128-byte names, ANM entry paths,
+//!                 mission.msg 64-byte lines.
+//! Oracle: decompiled literal == source literal (own scanner); bytes in the compiled file == bytes predicted
+//! by the M7 string model written here (MSG carriers and mission files); strings that cannot be encoded or
+//! do not fit must give an error diagnostic (never success, never a panic).
+
 #![allow(dead_code)]
-use crate::common::Report;
-pub fn run(tier: &str) -> Report { Report::new("C15", tier, "model_checking") }
-pub fn replay(_detail: &serde_json::Value) -> i32 { 2 }
+
+use std::collections::{BTreeMap, BTreeSet, HashSet};
+
+use encoding_rs::SHIFT_JIS;
+use serde_json::{json, Value};
+use truth::Game;
+
+use crate::common::{par_map, Report};
+use crate::drive::{self, CompileOpts, DecompOpts, Kind, Tool};
+
+// =============================================================================================
+// Shift-JIS helpers (encoding_rs = trusted library)
+
+fn sjis_encode(s: &str) -> Option<Vec<u8>> {
+    let (b, _, err) = SHIFT_JIS.encode(s);
+    if err { None } else { Some(b.into_owned()) }
+}
+
+fn sjis_decode(b: &[u8]) -> Option<String> {
+    SHIFT_JIS.decode_without_bom_handling_and_without_replacement(b).map(|c| c.into_owned())
+}
+
+#[derive(Clone, Debug)]
+struct Ch { c: char, bytes: Vec<u8>, class: &'static str }
+
+/// Every non-NUL character that Shift-JIS represents unambiguously (code -> char -> same code).
+fn charset() -> Vec<Ch> {
+    let mut out = vec![];
+    for b in 1u16..=0xFF {
+        let b = b as u8;
+        if let Some(s) = sjis_decode(&[b]) {
+            let mut it = s.chars();
+            if let (Some(c), None) = (it.next(), it.next()) {
+                if sjis_encode(&s).as_deref() == Some(&[b][..]) {
+                    let class = match b {
+                        0x20..=0x7E => "ascii-printable",
+                        0x01..=0x1F | 0x7F => "ascii-control",
+                        0x80 => "single-0x80",
+                        _ => "halfwidth-kana",
+                    };
+                    out.push(Ch { c, bytes: vec![b], class });
+                }
+            }
+        }
+    }
+    for lead in (0x81u8..=0x9F).chain(0xE0..=0xFC) {
+        for trail in (0x40u8..=0x7E).chain(0x80..=0xFC) {
+            let code = [lead, trail];
+            if let Some(s) = sjis_decode(&code) {
+                let mut it = s.chars();
+                if let (Some(c), None) = (it.next(), it.next()) {
+                    if sjis_encode(&s).as_deref() == Some(&code[..]) {
+                        let class = match lead {
+                            0x81..=0x84 => "jis-symbols-kana-greek-cyrillic",
+                            0x87 => "nec-row13",
+                            0x88..=0x9F | 0xE0..=0xEA => "jis-kanji",
+                            0xED..=0xEE => "nec-selected-ibm",
+                            0xFA..=0xFC => "ibm-extension",
+                            _ => "other-two-byte",
+                        };
+                        out.push(Ch { c, bytes: code.to_vec(), class });
+                    }
+                }
+            }
+        }
+    }
+    out
+}
+
+// =============================================================================================
+// Source text helpers: literal writer and an independent scanner for the decompiled text
+
+fn lit(s: &str) -> String {
+    let mut o = String::with_capacity(s.len() + 2);
+    o.push('"');
+    for c in s.chars() {
+        match c {
+            '"' => o.push_str("\\\""),
+            '\\' => o.push_str("\\\\"),
+            '\n' => o.push_str("\\n"),
+            '\r' => o.push_str("\\r"),
+            c => o.push(c),
+        }
+    }
+    o.push('"');
+    o
+}
+
+#[derive(Debug, Clone)]
+struct Lit { key: Option<String>, paren_depth: usize, value: String }
+
+/// Scan script text; return every string literal with the most recent `ident:` key and the paren depth.
+fn scan(text: &str) -> Result<Vec<Lit>, String> {
+    let cs: Vec<char> = text.chars().collect();
+    let mut i = 0;
+    let mut out = vec![];
+    let mut depth = 0usize;
+    let mut key: Option<String> = None;
+    let mut last_ident: Option<String> = None;
+    while i < cs.len() {
+        let c = cs[i];
+        if c == '"' {
+            i += 1;
+            let mut v = String::new();
+            loop {
+                if i >= cs.len() { return Err("unterminated string literal".into()); }
+                let c = cs[i];
+                if c == '"' { i += 1; break; }
+                if c == '\\' {
+                    i += 1;
+                    if i >= cs.len() { return Err("dangling backslash".into()); }
+                    match cs[i] {
+                        '0' => v.push('\0'), '"' => v.push('"'), '\\' => v.push('\\'), 'n' => v.push('\n'), 'r' => v.push('\r'),
+                        o => return Err(format!("unknown escape \\{} (U+{:04X})", o, o as u32)),
+                    }
+                    i += 1;
+                } else { v.push(c); i += 1; }
+            }
+            out.push(Lit { key: key.clone(), paren_depth: depth, value: v });
+            last_ident = None;
+        } else if c == '/' && i + 1 < cs.len() && cs[i + 1] == '/' {
+            while i < cs.len() && cs[i] != '\n' { i += 1; }
+        } else if c == '/' && i + 1 < cs.len() && cs[i + 1] == '*' {
+            i += 2;
+            while i + 1 < cs.len() && !(cs[i] == '*' && cs[i + 1] == '/') { i += 1; }
+            i += 2;
+        } else if c.is_ascii_alphanumeric() || c == '_' {
+            let st = i;
+            while i < cs.len() && (cs[i].is_ascii_alphanumeric() || cs[i] == '_') { i += 1; }
+            last_ident = Some(cs[st..i].iter().collect());
+        } else {
+            match c {
+                '(' => depth += 1,
+                ')' => depth = depth.saturating_sub(1),
+                ':' => { if let Some(id) = last_ident.take() { key = Some(id); } },
+                '}' | ']' => key = None,
+                _ => {},
+            }
+            if !c.is_whitespace() { last_ident = None; }
+            i += 1;
+        }
+    }
+    Ok(out)
+}
+
+// =============================================================================================
+// M7-strings: independent byte model
+
+#[derive(Clone, Copy, Debug, PartialEq)]
+enum Size { Block(usize), Pascal(usize), Fixed { len: usize, nulless: bool } }
+
+#[derive(Clone, Debug)]
+struct OpSpec {
+    opcode: u32,
+    /// source text before / after the string argument, and the bytes they encode to
+    pre_src: &'static str, pre_bytes: Vec<u8>,
+    post_src: &'static str, post_bytes: Vec<u8>,
+    size: Size,
+    mask: (u8, u8, u8),
+    furibug: bool,
+}
+
+#[derive(Clone, Copy, Debug, PartialEq, Eq)]
+enum Reject { Unencodable, FixedBuffer, MsgBlob255, Std128, Mission64 }
+
+impl Reject {
+    fn name(self) -> &'static str {
+        match self {
+            Reject::Unencodable => "unencodable", Reject::FixedBuffer => "fixed-buffer", Reject::MsgBlob255 => "msg-blob-over-255",
+            Reject::Std128 => "std-128-byte-field", Reject::Mission64 => "mission-64-byte-line",
+        }
+    }
+    fn keywords(self) -> &'static [&'static str] {
+        match self {
+            Reject::Unencodable => &["cannot be encoded"],
+            Reject::FixedBuffer => &["too large for buffer"],
+            Reject::MsgBlob255 => &["too large", "too long", "too big"],
+            Reject::Std128 | Reject::Mission64 => &["too long"],
+        }
+    }
+}
+
+/// The accelerating byte mask: value, then value += velocity, velocity += acceleration (all mod 256).
+fn mask_bytes((mut m, mut v, a): (u8, u8, u8), n: usize) -> Vec<u8> {
+    let mut out = Vec::with_capacity(n);
+    for _ in 0..n {
+        out.push(m);
+        m = ((m as u32 + v as u32) % 256) as u8;
+        v = ((v as u32 + a as u32) % 256) as u8;
+    }
+    out
+}
+
+fn round_up(n: usize, bs: usize) -> usize { if bs == 0 { n } else { (n + bs - 1) / bs * bs } }
+
+struct ModelOut { blob: Vec<u8>, masked_to_nul: bool }
+
+/// Bytes of one instruction's argument blob for string `s`.  `furi` = bytes carried over by the furigana quirk.
+fn model_blob(op: &OpSpec, s: &str, furi: &mut Option<Vec<u8>>, msg_limit: bool) -> Result<ModelOut, Reject> {
+    let mut e = sjis_encode(s).ok_or(Reject::Unencodable)?;
+    let text_len = e.len();
+    match op.size {
+        Size::Block(_) | Size::Pascal(_) | Size::Fixed { nulless: false, .. } => e.push(0),
+        Size::Fixed { nulless: true, .. } => {},
+    }
+    if op.furibug { if let Some(f) = furi.take() { e.extend(f); } }
+    match op.size {
+        Size::Block(bs) | Size::Pascal(bs) => { let n = round_up(e.len(), bs); e.resize(n, 0); },
+        Size::Fixed { len, .. } => { if e.len() > len { return Err(Reject::FixedBuffer); } e.resize(len, 0); },
+    }
+    let m = mask_bytes(op.mask, e.len());
+    for (b, k) in e.iter_mut().zip(&m) { *b ^= *k; }
+    let masked_to_nul = e[..text_len].iter().any(|&b| b == 0);
+    if op.furibug && s.starts_with('|') { *furi = Some(e.clone()); }
+    let mut blob = op.pre_bytes.clone();
+    if let Size::Pascal(_) = op.size { blob.extend((e.len() as u32).to_le_bytes()); }
+    blob.extend(e);
+    blob.extend(&op.post_bytes);
+    if msg_limit && blob.len() > 255 { return Err(Reject::MsgBlob255); }
+    Ok(ModelOut { blob, masked_to_nul })
+}
+
+/// mission.msg line: 64-byte buffer (NUL inside), each byte minus an accelerating key (mod 256)
+fn model_mission_line(s: &str, stage: u32, scene: u32, player: u32, line: usize) -> Result<Vec<u8>, Reject> {
+    let mut e = sjis_encode(s).ok_or(Reject::Unencodable)?;
+    if e.len() >= 64 { return Err(Reject::Mission64); }
+    e.resize(64, 0);
+    let m0 = ((7 * stage + 11 * scene + 13 * player + 58) % 256) as u8;
+    let v0 = ((23 * (line as u32 + 1)) % 256) as u8;
+    let key = mask_bytes((m0, v0, 1), 64);
+    for (b, k) in e.iter_mut().zip(&key) { *b = ((*b as i32 - *k as i32).rem_euclid(256)) as u8; }
+    Ok(e)
+}
+
+// =============================================================================================
+// Targets
+
+#[derive(Clone, Copy, Debug, PartialEq, Eq)]
+enum Carrier { Msg, AnmIns, Std06, Std10, AnmPath { path_2: bool }, Mission }
+
+#[derive(Clone, Debug)]
+struct Target {
+    name: String,
+    carrier: Carrier,
+    game: Game,
+    ops: Vec<OpSpec>,
+    mapfile: Option<String>,
+    per_case_script: bool,
+    /// prefix lengths for the `a^p . c` sweep
+    ps: Vec<usize>,
+    batch: usize,
+    /// ordered-pair family in the quick tier? (thorough: every target)
+    pairs_quick: bool,
+    family: &'static str,
+}
+
+impl Target {
+    fn tool(&self) -> Tool {
+        let kind = match self.carrier {
+            Carrier::Msg => Kind::Msg, Carrier::AnmIns | Carrier::AnmPath { .. } => Kind::Anm,
+            Carrier::Std06 | Carrier::Std10 => Kind::Std, Carrier::Mission => Kind::Mission,
+        };
+        Tool::new(kind, self.game)
+    }
+    fn is_ins(&self) -> bool { matches!(self.carrier, Carrier::Msg | Carrier::AnmIns) }
+    fn furibug(&self) -> bool { self.ops.iter().any(|o| o.furibug) }
+    /// strings per file "record" for metadata carriers
+    fn slots(&self) -> usize {
+        match self.carrier {
+            Carrier::Std06 => 9, Carrier::Std10 => 1,
+            Carrier::AnmPath { path_2 } => if path_2 { 2 } else { 1 },
+            Carrier::Mission => if self.game == Game::Th095 { 3 } else { 6 },
+            _ => 1,
+        }
+    }
+    /// block / buffer geometry used by the non-triviality rule: (block size, capacity in bytes)
+    fn geometry(&self) -> (Option<usize>, Option<usize>) {
+        match self.carrier {
+            Carrier::Msg | Carrier::AnmIns => match self.ops[0].size {
+                Size::Block(bs) | Size::Pascal(bs) => (Some(bs), None),
+                Size::Fixed { len, nulless } => (None, Some(if nulless { len } else { len - 1 })),
+            },
+            Carrier::Std06 | Carrier::Std10 => (None, Some(127)),
+            Carrier::AnmPath { .. } => (Some(16), None),
+            Carrier::Mission => (None, Some(63)),
+        }
+    }
+}
+
+fn sig_text(op: &OpSpec, letter_prefix: &str, letter_suffix: &str) -> String {
+    let (m, v, a) = op.mask;
+    let masked = op.mask != (0, 0, 0);
+    let mut attrs = vec![];
+    let letter = match op.size {
+        Size::Block(bs) => { attrs.push(format!("bs={bs}")); if masked { 'm' } else { 'z' } },
+        Size::Pascal(bs) => { attrs.push(format!("bs={bs}")); 'p' },
+        Size::Fixed { len, nulless } => { attrs.push(format!("len={len}")); if nulless { attrs.push("nulless".into()); } if masked { 'm' } else { 'z' } },
+    };
+    if masked { attrs.push(format!("mask={:#x},{},{}", m, v, a)); }
+    if op.furibug { attrs.push("furibug".into()); }
+    format!("{}{}({}){}", letter_prefix, letter, attrs.join(";"), letter_suffix)
+}
+
+fn plain(opcode: u32, size: Size, mask: (u8, u8, u8), furibug: bool) -> OpSpec {
+    OpSpec { opcode, pre_src: "", pre_bytes: vec![], post_src: "", post_bytes: vec![], size, mask, furibug }
+}
+fn with_ss(mut op: OpSpec) -> OpSpec { op.pre_src = "0, 0, "; op.pre_bytes = vec![0; 4]; op }
+
+fn ps_for(size: Size) -> Vec<usize> {
+    match size {
+        Size::Block(bs) | Size::Pascal(bs) => match bs { 1 => vec![0, 1], 4 => vec![0, 1, 2, 3], _ => vec![0, 1, bs - 3, bs - 2, bs - 1] },
+        Size::Fixed { len, nulless } => { let cap = if nulless { len } else { len - 1 }; let mut v = vec![0, 1, 2, 3, cap - 2, cap - 1]; v.sort(); v.dedup(); v },
+    }
+}
+
+const MSG_GAMES: &[Game] = &[Game::Th06, Game::Th07, Game::Th08, Game::Th09, Game::Th10, Game::Alcostg, Game::Th11, Game::Th12,
+    Game::Th128, Game::Th13, Game::Th14, Game::Th143, Game::Th15, Game::Th16, Game::Th165, Game::Th17, Game::Th18, Game::Th185];
+
+/// The built-in text instructions of each MSG game, as documented in the core mapfile
+/// (restated here by hand: opcode, has two leading shorts, mask, furigana quirk).
+fn core_text_ops(game: Game) -> Vec<OpSpec> {
+    let acc = (0x77, 7, 16);
+    match game {
+        Game::Th06 | Game::Th07 => vec![with_ss(plain(3, Size::Block(4), (0, 0, 0), false)), with_ss(plain(8, Size::Block(4), (0, 0, 0), false))],
+        Game::Th08 => {
+            let k = (0x77, 0, 0);
+            vec![with_ss(plain(3, Size::Block(4), k, false)), with_ss(plain(8, Size::Block(4), k, false)),
+                 plain(16, Size::Block(4), k, false), plain(19, Size::Block(4), k, false), plain(20, Size::Block(4), k, false)]
+        },
+        Game::Th09 => vec![with_ss(plain(3, Size::Block(4), acc, false)), plain(16, Size::Block(4), acc, false)],
+        Game::Th10 | Game::Alcostg => (14..=16).map(|o| plain(o, Size::Block(4), acc, false)).collect(),
+        Game::Th11 => (15..=17).map(|o| plain(o, Size::Block(4), acc, false)).collect(),
+        _ => (15..=17).map(|o| plain(o, Size::Block(4), acc, true)).collect(),
+    }
+}
+
+fn targets() -> Vec<Target> {
+    let mut ts = vec![];
+    let acc = (0x77u8, 7u8, 16u8);
+    // ---- user signatures carried by MSG scripts
+    let user: Vec<(OpSpec, &str, &str)> = vec![
+        (plain(100, Size::Block(4), (0, 0, 0), false), "", ""),
+        (plain(101, Size::Block(4), acc, false), "", ""),
+        (plain(102, Size::Fixed { len: 16, nulless: false }, acc, false), "", ""),
+        (plain(103, Size::Fixed { len: 16, nulless: true }, acc, false), "", ""),
+        (plain(104, Size::Pascal(4), (0, 0, 0), false), "", ""),
+        (plain(105, Size::Pascal(4), acc, false), "", ""),
+        (plain(106, Size::Block(4), acc, true), "", ""),
+        (plain(107, Size::Fixed { len: 34, nulless: false }, (0, 0, 0), false), "", ""),
+        (plain(108, Size::Fixed { len: 48, nulless: false }, (0xaa, 0, 0), false), "", ""),
+        (plain(109, Size::Fixed { len: 64, nulless: true }, (0xdd, 0, 0), false), "", ""),
+        (plain(110, Size::Block(1), acc, false), "", ""),
+        (plain(111, Size::Block(16), (0, 0, 0), false), "", ""),
+        (plain(112, Size::Block(4), (0x77, 0, 0), false), "", ""),
+        (OpSpec { pre_src: "1, ", pre_bytes: vec![1, 0, 0, 0], post_src: ", 2", post_bytes: vec![2, 0, 0, 0], ..plain(113, Size::Fixed { len: 8, nulless: false }, acc, false) }, "S", "S"),
+        (OpSpec { pre_src: "1, ", pre_bytes: vec![1, 0, 0, 0], post_src: ", 2", post_bytes: vec![2, 0, 0, 0], ..plain(114, Size::Pascal(4), acc, false) }, "S", "S"),
+        (plain(115, Size::Fixed { len: 5, nulless: true }, (0x83, 0xd9, 0), false), "", ""),
+        (plain(116, Size::Pascal(4), acc, true), "", ""),
+    ];
+    let mut msgmap = String::from("!msgmap\n!ins_signatures\n");
+    let mut anmmap = String::from("!anmmap\n!ins_signatures\n");
+    for (op, pre, post) in &user {
+        msgmap += &format!("{} {}\n", op.opcode, sig_text(op, pre, post));
+        anmmap += &format!("{} {}\n", op.opcode + 900, sig_text(op, pre, post));
+    }
+    for (op, pre, post) in &user {
+        let sig = sig_text(op, pre, post);
+        ts.push(Target {
+            name: format!("msg-user/th10:{}", sig), carrier: Carrier::Msg, game: Game::Th10, ops: vec![op.clone()],
+            mapfile: Some(msgmap.clone()), per_case_script: op.furibug, ps: ps_for(op.size), batch: 256, pairs_quick: matches!(op.opcode, 100 | 101 | 102 | 105 | 106), family: "user-signature/MSG",
+        });
+    }
+    // the same user signatures in the oldest MSG layout (no flags in the table): a representative pair
+    for idx in [0usize, 1] {
+        let (op, pre, post) = &user[idx];
+        ts.push(Target {
+            name: format!("msg-user/th06:{}", sig_text(op, pre, post)), carrier: Carrier::Msg, game: Game::Th06, ops: vec![op.clone()],
+            mapfile: Some(msgmap.clone()), per_case_script: false, ps: ps_for(op.size), batch: 256, pairs_quick: false, family: "user-signature/MSG",
+        });
+    }
+    // ---- user signatures carried by ANM scripts (16-bit instruction size: long strings fit)
+    for idx in [0usize, 1, 4, 5, 9] {
+        let (op, pre, post) = &user[idx];
+        let mut op = op.clone(); op.opcode += 900;
+        ts.push(Target {
+            name: format!("anm-user/th12:{}", sig_text(&op, pre, post)), carrier: Carrier::AnmIns, game: Game::Th12, ops: vec![op.clone()],
+            mapfile: Some(anmmap.clone()), per_case_script: false, ps: ps_for(op.size), batch: 256, pairs_quick: false, family: "user-signature/ANM",
+        });
+    }
+    // ---- built-in MSG text instructions
+    for &game in MSG_GAMES {
+        let ops = core_text_ops(game);
+        let quick_game = matches!(game, Game::Th06 | Game::Th08 | Game::Th09 | Game::Th12 | Game::Th17 | Game::Th18);
+        for (k, op) in ops.iter().enumerate() {
+            ts.push(Target {
+                name: format!("msg-core/{}:ins_{}", game.as_str(), op.opcode), carrier: Carrier::Msg, game, ops: vec![op.clone()],
+                mapfile: None, per_case_script: op.furibug, ps: vec![0, 1, 2, 3], batch: 256,
+                pairs_quick: quick_game && k == 0, family: "builtin-signature/MSG",
+            });
+        }
+        if ops.len() > 1 && ops.iter().all(|o| o.pre_bytes.is_empty()) {
+            // consecutive text lines using the game's different text opcodes in rotation
+            ts.push(Target {
+                name: format!("msg-core/{}:ins_{}-rotation", game.as_str(), ops.iter().map(|o| o.opcode.to_string()).collect::<Vec<_>>().join("/")),
+                carrier: Carrier::Msg, game, ops: ops.clone(), mapfile: None, per_case_script: true, ps: vec![], batch: 128,
+                pairs_quick: false, family: "builtin-signature/MSG-sequences",
+            });
+        }
+    }
+    // ---- metadata
+    let meta = |name: &str, carrier: Carrier, game: Game, ps: Vec<usize>, batch: usize| Target {
+        name: name.to_string(), carrier, game, ops: vec![], mapfile: None, per_case_script: false, ps, batch, pairs_quick: true, family: "metadata",
+    };
+    ts.push(meta("std/th06:stage_name+bgm", Carrier::Std06, Game::Th06, vec![0, 1, 125, 126], 9));
+    ts.push(meta("std/th08:stage_name+bgm", Carrier::Std06, Game::Th08, vec![0, 126], 9));
+    ts.push(meta("std/th12:anm_path", Carrier::Std10, Game::Th12, vec![0, 125, 126], 1));
+    ts.push(meta("anm/th06:path+path_2", Carrier::AnmPath { path_2: true }, Game::Th06, vec![0, 1, 14, 15, 16], 128));
+    ts.push(meta("anm/th12:path", Carrier::AnmPath { path_2: false }, Game::Th12, vec![0, 1, 14, 15, 16], 64));
+    ts.push(meta("anm/th18:path", Carrier::AnmPath { path_2: false }, Game::Th18, vec![0, 15], 64));
+    ts.push(meta("mission/th095:text", Carrier::Mission, Game::Th095, vec![0, 1, 61, 62], 192));
+    ts.push(meta("mission/th125:text", Carrier::Mission, Game::Th125, vec![0, 1, 61, 62], 192));
+    ts
+}
+
+// =============================================================================================
+// Cases
+
+#[derive(Clone, Debug)]
+struct Case {
+    strs: Vec<String>,
+    label: String,
+    corrupt: bool,
+}
+
+fn case1(s: String, label: String) -> Case { Case { strs: vec![s], label, corrupt: false } }
+
+/// What the model says about a case on a target.
+fn expectation(t: &Target, c: &Case) -> Result<(), Reject> {
+    match t.carrier {
+        Carrier::Msg | Carrier::AnmIns => {
+            let mut furi = None;
+            for (i, s) in c.strs.iter().enumerate() {
+                model_blob(&t.ops[i % t.ops.len()], s, &mut furi, t.carrier == Carrier::Msg)?;
+            }
+            Ok(())
+        },
+        Carrier::Std06 | Carrier::Std10 => {
+            for s in &c.strs { let e = sjis_encode(s).ok_or(Reject::Unencodable)?; if e.len() >= 128 { return Err(Reject::Std128); } }
+            Ok(())
+        },
+        Carrier::AnmPath { .. } => { for s in &c.strs { sjis_encode(s).ok_or(Reject::Unencodable)?; } Ok(()) },
+        Carrier::Mission => {
+            for s in &c.strs { let e = sjis_encode(s).ok_or(Reject::Unencodable)?; if e.len() >= 64 { return Err(Reject::Mission64); } }
+            Ok(())
+        },
+    }
+}
+
+fn nontrivial(t: &Target, c: &Case) -> bool {
+    let (bs, cap) = t.geometry();
+    c.strs.iter().any(|s| {
+        let n = match sjis_encode(s) { Some(e) => e.len(), None => return false };
+        if n != s.chars().count() { return true; }  // contains a two-byte character
+        if let Some(bs) = bs { if n % bs == 0 || (n + 1) % bs == 0 { return true; } }
+        if let Some(cap) = cap { if n + 1 >= cap { return true; } }
+        false
+    })
+}
+
+// =============================================================================================
+// Source construction
+
+const ANM_ENTRY_TAIL: &str = "has_data: false, img_width: 512, img_height: 512, img_format: 3, offset_x: 0, offset_y: 0, colorkey: 0, memory_priority: 0, low_res_scale: false, sprites: {} }\n";
+const FILLER: &str = "f";
+
+struct Built {
+    src: String,
+    /// expected literals in the order the decompiled text must show them
+    expected: Vec<String>,
+    /// per expected literal: index of the case it belongs to (None = filler)
+    owner: Vec<Option<usize>>,
+}
+
+fn build(t: &Target, cases: &[Case]) -> Built {
+    let mut src = String::new();
+    let mut expected = vec![];
+    let mut owner = vec![];
+    match t.carrier {
+        Carrier::Msg => {
+            let n_scripts = if t.per_case_script { cases.len() } else { 1 };
+            src.push_str("meta { table: {");
+            for i in 0..n_scripts { src.push_str(&format!("{}: {{script: \"s{}\"}}, ", i, i)); }
+            src.push_str("} }\n");
+            let mut open = false;
+            for (ci, c) in cases.iter().enumerate() {
+                if t.per_case_script || ci == 0 {
+                    if open { src.push_str("}\n"); }
+                    src.push_str(&format!("script s{} {{\n", if t.per_case_script { ci } else { 0 }));
+                    open = true;
+                }
+                for (i, s) in c.strs.iter().enumerate() {
+                    let op = &t.ops[i % t.ops.len()];
+                    src.push_str(&format!("  ins_{}({}{}{});\n", op.opcode, op.pre_src, lit(s), op.post_src));
+                    expected.push(s.clone()); owner.push(Some(ci));
+                }
+            }
+            if open { src.push_str("}\n"); }
+        },
+        Carrier::AnmIns => {
+            src.push_str("entry { path: \"subdir/file.png\", ");
+            src.push_str(ANM_ENTRY_TAIL);
+            src.push_str("script script0 {\n");
+            for (ci, c) in cases.iter().enumerate() {
+                for (i, s) in c.strs.iter().enumerate() {
+                    let op = &t.ops[i % t.ops.len()];
+                    src.push_str(&format!("  ins_{}({}{}{});\n", op.opcode, op.pre_src, lit(s), op.post_src));
+                    expected.push(s.clone()); owner.push(Some(ci));
+                }
+            }
+            src.push_str("}\n");
+        },
+        Carrier::Std06 => {
+            let mut slots: Vec<(String, Option<usize>)> = cases.iter().enumerate().map(|(ci, c)| (c.strs[0].clone(), Some(ci))).collect();
+            while slots.len() < 9 { slots.push((FILLER.to_string(), None)); }
+            src.push_str(&format!("meta {{\n unknown: 0,\n stage_name: {},\n bgm: [\n", lit(&slots[0].0)));
+            for k in 0..4 { src.push_str(&format!("  {{path: {}, name: {}}},\n", lit(&slots[1 + 2 * k].0), lit(&slots[2 + 2 * k].0))); }
+            src.push_str(" ],\n objects: {},\n instances: [],\n}\nscript main {}\n");
+            for (s, o) in slots { expected.push(s); owner.push(o); }
+        },
+        Carrier::Std10 => {
+            src.push_str(&format!("meta {{ unknown: 0, anm_path: {}, objects: {{}}, instances: [] }}\nscript main {{}}\n", lit(&cases[0].strs[0])));
+            expected.push(cases[0].strs[0].clone()); owner.push(Some(0));
+        },
+        Carrier::AnmPath { path_2 } => {
+            let per = if path_2 { 2 } else { 1 };
+            let mut k = 0;
+            while k < cases.len() {
+                let a = &cases[k].strs[0];
+                src.push_str(&format!("entry {{ path: {}, ", lit(a)));
+                expected.push(a.clone()); owner.push(Some(k));
+                if path_2 {
+                    let (b, o) = if k + 1 < cases.len() { (cases[k + 1].strs[0].clone(), Some(k + 1)) } else { (FILLER.to_string(), None) };
+                    src.push_str(&format!("path_2: {}, ", lit(&b)));
+                    expected.push(b); owner.push(o);
+                }
+                src.push_str(ANM_ENTRY_TAIL);
+                k += per;
+            }
+        },
+        Carrier::Mission => {
+            let per = t.slots();
+            let mut k = 0;
+            let mut e = 0u32;
+            while k < cases.len() {
+                let (stage, scene, player) = mission_ids(e);
+                let mut texts = vec![];
+                for j in 0..per {
+                    let (s, o) = if k + j < cases.len() { (cases[k + j].strs[0].clone(), Some(k + j)) } else { (FILLER.to_string(), None) };
+                    texts.push(lit(&s)); expected.push(s); owner.push(o);
+                }
+                if t.game == Game::Th095 {
+                    src.push_str(&format!("entry {{ stage: {stage}, scene: {scene}, face: 3, point: 4, text: [{}] }}\n", texts.join(", ")));
+                } else {
+                    src.push_str(&format!("entry {{ stage: {stage}, scene: {scene}, player: {player}, unknown_1: 0, unknown_2: 0, point_1: 5, point_2: 6, furigana: [[0,0],[0,0],[0,0]], text: [{}] }}\n", texts.join(", ")));
+                }
+                k += per; e += 1;
+            }
+        },
+    }
+    Built { src, expected, owner }
+}
+
+fn mission_ids(entry: u32) -> (u32, u32, u32) { (1 + entry % 14, 1 + (entry / 3) % 9, entry % 2) }
+
+// =============================================================================================
+// Binary walkers (independent of truth's readers)
+
+fn u32_at(b: &[u8], p: usize) -> Option<u32> { b.get(p..p + 4).map(|s| u32::from_le_bytes([s[0], s[1], s[2], s[3]])) }
+
+/// MSG: u32 count; count x (u32 offset [, u32 flags]); scripts = instructions (i16 time, u8 opcode, u8 argsize, blob)
+/// ended by four zero bytes.  Returns the table offsets and, per script, (file offset, [(opcode, blob)]).
+fn walk_msg(b: &[u8], has_flags: bool) -> Result<(Vec<u32>, Vec<(usize, Vec<(u8, Vec<u8>)>)>), String> {
+    let n = u32_at(b, 0).ok_or("short header")? as usize;
+    let esz = if has_flags { 8 } else { 4 };
+    let mut table = vec![];
+    for i in 0..n { table.push(u32_at(b, 4 + i * esz).ok_or("short table")?); }
+    let mut pos = 4 + n * esz;
+    let mut scripts = vec![];
+    while pos < b.len() {
+        let start = pos;
+        let mut instrs = vec![];
+        loop {
+            let h = b.get(pos..pos + 4).ok_or_else(|| format!("truncated instruction header at {pos:#x}"))?;
+            if h == [0, 0, 0, 0] { pos += 4; break; }
+            let size = h[3] as usize;
+            let blob = b.get(pos + 4..pos + 4 + size).ok_or_else(|| format!("truncated blob at {pos:#x}"))?;
+            instrs.push((h[2], blob.to_vec()));
+            pos += 4 + size;
+        }
+        scripts.push((start, instrs));
+    }
+    Ok((table, scripts))
+}
+
+// =============================================================================================
+// Running a batch through the real code
+
+#[derive(Default)]
+struct Out {
+    cases: u64, nontrivial: u64,
+    compiles: u64, decompiles: u64, strings: u64, lit_cmp: u64, byte_cmp: u64, masked_nul: u64,
+    fails: Vec<(String, Value)>,
+    outcomes: BTreeMap<String, u64>,
+    sample: Option<Value>,
+    machinery: Vec<String>,
+}
+impl Out {
+    fn outcome(&mut self, k: &str, n: u64) { *self.outcomes.entry(k.to_string()).or_insert(0) += n; }
+    fn merge(&mut self, o: Out) {
+        self.cases += o.cases; self.nontrivial += o.nontrivial;
+        self.compiles += o.compiles; self.decompiles += o.decompiles; self.strings += o.strings; self.lit_cmp += o.lit_cmp;
+        self.byte_cmp += o.byte_cmp; self.masked_nul += o.masked_nul; self.fails.extend(o.fails); self.machinery.extend(o.machinery);
+        for (k, v) in o.outcomes { *self.outcomes.entry(k).or_insert(0) += v; }
+        if self.sample.is_none() { self.sample = o.sample; }
+    }
+}
+
+fn detail(t: &Target, c: &Case, expect: &str, what: &str, extra: Value) -> Value {
+    json!({ "target": t.name, "strs": c.strs, "label": c.label, "expect": expect, "what": what, "selftest_corrupt": c.corrupt,
+            "codepoints": c.strs.iter().map(|s| codepoints(s)).collect::<Vec<_>>(),
+            "observed": extra })
+}
+
+fn codepoints(s: &str) -> String {
+    let n = s.chars().count();
+    let head: Vec<String> = s.chars().take(12).map(|ch| format!("U+{:04X}", ch as u32)).collect();
+    if n > 12 { format!("{} ... ({} characters in total, last U+{:04X})", head.join(" "), n, s.chars().last().unwrap() as u32) } else { head.join(" ") }
+}
+
+fn trunc(s: &str, n: usize) -> String { if s.chars().count() > n { s.chars().take(n).collect::<String>() + "..." } else { s.to_string() } }
+
+/// A problem found at batch level: (kind, involved case index if known, info)
+struct Problem { kind: String, case: Option<usize>, info: Value }
+
+fn run_ok_once(t: &Target, cases: &[Case], out: &mut Out) -> Vec<Problem> {
+    let mut probs = vec![];
+    let built = build(t, cases);
+    let maps: Vec<&str> = t.mapfile.iter().map(|s| s.as_str()).collect();
+    let tool = t.tool();
+    let co = drive::compile(tool, built.src.as_bytes(), &CompileOpts { mapfiles: maps.clone(), ..Default::default() });
+    out.compiles += 1;
+    out.strings += built.expected.len() as u64;
+    if let Some(p) = &co.panic {
+        probs.push(Problem { kind: p.signature(), case: None, info: json!({"stage": "compile", "panic": p.text}) });
+        return probs;
+    }
+    let bytes = match &co.bytes {
+        Some(b) => b,
+        None => {
+            probs.push(Problem { kind: "compile-rejected".into(), case: None, info: json!({"diag": trunc(&co.diag, 1500)}) });
+            return probs;
+        },
+    };
+    if co.has_warning() { out.outcome("compile:warning-emitted", 1); }
+
+    // ---- byte model
+    match t.carrier {
+        Carrier::Msg => {
+            match walk_msg(bytes, t.game >= Game::Th09) {
+                Err(e) => probs.push(Problem { kind: "bytes:unwalkable-file".into(), case: None, info: json!({"walker": e}) }),
+                Ok((table, scripts)) => {
+                    let n_scripts = if t.per_case_script { cases.len() } else { 1 };
+                    if scripts.len() != n_scripts || table.len() != n_scripts {
+                        probs.push(Problem { kind: "bytes:script-count".into(), case: None, info: json!({"scripts": scripts.len(), "table": table.len(), "expected": n_scripts}) });
+                    } else {
+                        for (i, (start, _)) in scripts.iter().enumerate() {
+                            if table[i] as usize != *start {
+                                probs.push(Problem { kind: "bytes:script-offset".into(), case: Some(if t.per_case_script { i } else { 0 }), info: json!({"table": table[i], "walked": start}) });
+                            }
+                        }
+                        let mut si = 0; let mut ii = 0;
+                        for (ci, c) in cases.iter().enumerate() {
+                            if t.per_case_script { si = ci; ii = 0; }
+                            let mut furi = None;
+                            for (k, s) in c.strs.iter().enumerate() {
+                                let op = &t.ops[k % t.ops.len()];
+                                // (state never crosses cases: non-furibug targets have no state, furibug targets use one script per case)
+                                let m = match model_blob(op, s, &mut furi, true) { Ok(m) => m, Err(_) => { out.machinery.push(format!("model rejected a case scheduled as ok: {} {}", t.name, c.label)); continue; } };
+                                if m.masked_to_nul { out.masked_nul += 1; }
+                                out.byte_cmp += 1;
+                                match scripts[si].1.get(ii) {
+                                    Some((opc, blob)) if *opc as u32 == op.opcode && *blob == m.blob => {},
+                                    got => probs.push(Problem { kind: "bytes".into(), case: Some(ci), info: json!({"string_index": k, "model": hex(&m.blob), "file": got.map(|(o, b)| format!("opcode {} blob {}", o, hex(b)))}) }),
+                                }
+                                ii += 1;
+                            }
+                            if t.per_case_script && scripts[si].1.len() != ii {
+                                probs.push(Problem { kind: "bytes:instr-count".into(), case: Some(ci), info: json!({"file": scripts[si].1.len(), "expected": ii}) });
+                            }
+                        }
+                        if !t.per_case_script && scripts[0].1.len() != ii {
+                            probs.push(Problem { kind: "bytes:instr-count".into(), case: None, info: json!({"file": scripts[0].1.len(), "expected": ii}) });
+                        }
+                    }
+                },
+            }
+        },
+        Carrier::Mission => {
+            let per = t.slots();
+            let n_entries = (built.expected.len() + per - 1) / per;
+            let (hdr, esz) = if t.game == Game::Th095 { (12, 12 + 64 * 3) } else { (40, 40 + 64 * 6) };
+            if u32_at(bytes, 0) != Some(n_entries as u32) || bytes.len() != 4 + 4 * n_entries + esz * n_entries {
+                probs.push(Problem { kind: "bytes:mission-layout".into(), case: None, info: json!({"len": bytes.len(), "entries": n_entries}) });
+            } else {
+                for (k, s) in built.expected.iter().enumerate() {
+                    let (e, line) = (k / per, k % per);
+                    let (stage, scene, player) = mission_ids(e as u32);
+                    let player = if t.game == Game::Th095 { 0 } else { player };
+                    let at = 4 + 4 * n_entries + esz * e + hdr + 64 * line;
+                    let want = model_mission_line(s, stage, scene, player, line).unwrap_or_default();
+                    out.byte_cmp += 1;
+                    if bytes[at..at + 64] != want[..] {
+                        probs.push(Problem { kind: "bytes".into(), case: built.owner[k], info: json!({"model": hex(&want), "file": hex(&bytes[at..at + 64]), "entry": e, "line": line}) });
+                    }
+                }
+            }
+        },
+        _ => {},
+    }
+
+    // ---- decompile + literal comparison
+    let de = drive::decompile(tool, bytes, &DecompOpts { mapfiles: maps, ..Default::default() });
+    out.decompiles += 1;
+    if let Some(p) = &de.panic {
+        probs.push(Problem { kind: p.signature(), case: None, info: json!({"stage": "decompile", "panic": p.text}) });
+        return probs;
+    }
+    let text = match &de.text {
+        Some(x) => x,
+        None => { probs.push(Problem { kind: "decompile-rejected".into(), case: None, info: json!({"diag": trunc(&de.diag, 1500)}) }); return probs; },
+    };
+    if de.diag.lines().any(|l| l.starts_with("warning") || l.starts_with("error") || l.starts_with("bug")) {
+        probs.push(Problem { kind: "decompile-warning".into(), case: None, info: json!({"diag": trunc(&de.diag, 1500)}) });
+    }
+    let lits = match scan(text) {
+        Ok(l) => l,
+        Err(e) => { probs.push(Problem { kind: "decompiled-text-unscannable".into(), case: None, info: json!({"scanner": e, "text": trunc(text, 1500)}) }); return probs; },
+    };
+    let got: Vec<&Lit> = match t.carrier {
+        Carrier::Msg | Carrier::AnmIns => lits.iter().filter(|l| l.paren_depth > 0).collect(),
+        Carrier::Std06 => lits.iter().filter(|l| matches!(l.key.as_deref(), Some("stage_name" | "path" | "name"))).collect(),
+        Carrier::Std10 => lits.iter().filter(|l| l.key.as_deref() == Some("anm_path")).collect(),
+        Carrier::AnmPath { .. } => lits.iter().filter(|l| matches!(l.key.as_deref(), Some("path" | "path_2"))).collect(),
+        Carrier::Mission => lits.iter().filter(|l| l.key.as_deref() == Some("text")).collect(),
+    };
+    if got.len() != built.expected.len() {
+        probs.push(Problem { kind: "literal-count".into(), case: None, info: json!({"decompiled": got.len(), "source": built.expected.len(), "text": trunc(text, 1500)}) });
+        return probs;
+    }
+    for (k, (g, want)) in got.iter().zip(&built.expected).enumerate() {
+        out.lit_cmp += 1;
+        let mut want = want.clone();
+        if let Some(ci) = built.owner[k] { if cases[ci].corrupt { want.push('\u{30BD}'); } }
+        if g.value != want {
+            probs.push(Problem { kind: "roundtrip".into(), case: built.owner[k], info: json!({"source": want, "decompiled": g.value,
+                "decompiled_codepoints": codepoints(&g.value)}) });
+        }
+    }
+    if out.sample.is_none() && !cases.is_empty() {
+        out.sample = Some(json!({"target": t.name, "case": cases[cases.len() / 2].label, "strings": cases[cases.len() / 2].strs.iter().map(|s| trunc(s, 40)).collect::<Vec<_>>(),
+            "batch_size": cases.len(), "compiled_bytes": bytes.len(), "verdict": if probs.is_empty() { "identical" } else { "problem" }}));
+    }
+    probs
+}
+
+fn hex(b: &[u8]) -> String { b.iter().map(|x| format!("{:02x}", x)).collect::<Vec<_>>().join("") }
+
+fn sig_for(t: &Target, c: Option<&Case>, kind: &str) -> String {
+    if kind.starts_with("panic:") { return kind.to_string(); }
+    match c {
+        Some(c) => format!("C15:{}:{}:{}", kind, t.name, c.label),
+        None => format!("C15:{}:{}:batch-context", kind, t.name),
+    }
+}
+
+/// Run cases that the model expects to be accepted.  On any problem in a multi-case batch the cases
+/// are re-run one by one so that each failure names its own minimal witness.
+fn run_ok(t: &Target, cases: &[Case], out: &mut Out) {
+    let probs = run_ok_once(t, cases, out);
+    if probs.is_empty() { out.outcome("accepted:round-trip-identical", cases.len() as u64); return; }
+    if cases.len() == 1 {
+        out.outcome("accepted-expected:VIOLATION", 1);
+        for p in probs { out.fails.push((sig_for(t, Some(&cases[0]), &p.kind), detail(t, &cases[0], "ok", &p.kind, p.info))); }
+        return;
+    }
+    let mut reproduced = false;
+    for c in cases {
+        let mut sub = Out::default();
+        run_ok(t, std::slice::from_ref(c), &mut sub);
+        if !sub.fails.is_empty() { reproduced = true; }
+        sub.sample = None;
+        // count only the failures and the work, not a second "string pushed" for the evidence
+        out.compiles += sub.compiles; out.decompiles += sub.decompiles;
+        out.fails.extend(sub.fails); out.machinery.extend(sub.machinery);
+        for (k, v) in sub.outcomes { *out.outcomes.entry(k).or_insert(0) += v; }
+    }
+    if !reproduced {
+        let p = &probs[0];
+        out.fails.push((sig_for(t, None, &p.kind), json!({"target": t.name, "what": p.kind, "observed": p.info, "batch": cases.iter().map(|c| json!({"strs": c.strs, "label": c.label})).collect::<Vec<_>>(), "expect": "ok-batch"})));
+    }
+}
+
+/// Run one case that must be rejected with an error diagnostic.
+fn run_err(t: &Target, c: &Case, why: Reject, out: &mut Out) {
+    let built = build(t, std::slice::from_ref(c));
+    let maps: Vec<&str> = t.mapfile.iter().map(|s| s.as_str()).collect();
+    let co = drive::compile(t.tool(), built.src.as_bytes(), &CompileOpts { mapfiles: maps, ..Default::default() });
+    out.compiles += 1;
+    out.strings += c.strs.len() as u64;
+    let exp = format!("err:{}", why.name());
+    if let Some(p) = &co.panic {
+        out.outcome("rejected-expected:PANIC", 1);
+        out.fails.push((p.signature(), detail(t, c, &exp, "panic", json!({"panic": p.text}))));
+        return;
+    }
+    if co.bytes.is_some() || !drive::has_error(&co.diag) {
+        out.outcome(&format!("{}:ACCEPTED-SILENTLY", why.name()), 1);
+        let sig = match why {
+            Reject::Unencodable => format!("C15:unencodable-accepted:{}:{}", t.name, c.label),
+            Reject::MsgBlob255 => "C15:oversize-accepted:msg-blob-over-255".to_string(),
+            w => format!("C15:oversize-accepted:{}:{}", w.name(), t.name),
+        };
+        let sz = co.bytes.as_ref().map(|b| b.len());
+        out.fails.push((sig, detail(t, c, &exp, "accepted", json!({"compiled_len": sz, "diag": trunc(&co.diag, 600),
+            "string_bytes": c.strs.iter().map(|s| sjis_encode(s).map(|e| e.len())).collect::<Vec<_>>()}))));
+        return;
+    }
+    if why.keywords().iter().any(|k| co.diag.contains(k)) {
+        out.outcome(&format!("{}:rejected-with-error", why.name()), 1);
+    } else {
+        out.outcome(&format!("{}:rejected-with-unrelated-error", why.name()), 1);
+        out.machinery.push(format!("expected a '{}' error for {} {} but the diagnostic is: {}", why.name(), t.name, c.label, trunc(&co.diag, 300)));
+    }
+    if out.sample.is_none() {
+        out.sample = Some(json!({"target": t.name, "case": c.label, "strings": c.strs.iter().map(|s| trunc(s, 40)).collect::<Vec<_>>(), "expected": exp,
+            "verdict": "rejected", "diag_first_line": co.diag.lines().next().unwrap_or("")}));
+    }
+}
+
+// =============================================================================================
+// Enumeration
+
+const QUICK_LENS: &[usize] = &[0, 1, 2, 3, 4, 5, 7, 8, 15, 16, 17, 31, 32, 33, 63, 64, 65, 127, 128, 129, 246, 247, 248, 250, 251, 252, 255, 256, 257, 300];
+
+fn unencodable_candidates() -> Vec<char> {
+    ['\u{00E9}', '\u{00FC}', '\u{0081}', '\u{00A0}', '\u{0101}', '\u{20AC}', '\u{23C4}', '\u{2603}', '\u{AC00}', '\u{4E02}', '\u{E000}', '\u{F8F0}',
+     '\u{FFFD}', '\u{FEFF}', '\u{FF5F}', '\u{1F600}', '\u{20000}', '\u{10FFFF}']
+        .into_iter().filter(|c| sjis_encode(&c.to_string()).is_none()).collect()
+}
+
+fn ulabel(c: char) -> String { format!("U+{:04X}", c as u32) }
+
+enum Work {
+    /// materialised cases: a batch expected to be accepted, or one case expected to be rejected
+    Cases { t: usize, cases: Vec<Case>, expect: Result<(), Reject> },
+    /// character sweep over chars[lo..hi] on target t, generated inside the worker
+    Sweep { t: usize, lo: usize, hi: usize },
+    /// all ordered pairs (specials[lo..hi] x specials) on target t, generated inside the worker
+    Pairs { t: usize, lo: usize, hi: usize },
+}
+
+/// The small families of a target (lengths, buffer fill/overflow, unencodable probes, sequences).
+fn small_cases(t: &Target, thorough: bool) -> (Vec<Case>, Vec<(Case, Reject)>) {
+    let rep_chars: Vec<(&str, char)> = vec![("a", 'a'), ("U+30BD", '\u{30BD}'), ("U+FF71", '\u{FF71}')];
+    let unenc = unencodable_candidates();
+    let mut seen: HashSet<Vec<String>> = HashSet::new();
+    let mut ok: Vec<Case> = vec![];
+    let mut errs: Vec<(Case, Reject)> = vec![];
+    let is_seq_target = t.ops.len() > 1;
+    let lens: Vec<usize> = if thorough { (0..=300).collect() } else { QUICK_LENS.to_vec() };
+    let mut add = |c: Case| {
+        if !seen.insert(c.strs.clone()) { return; }
+        match expectation(t, &c) { Ok(()) => ok.push(c), Err(r) => errs.push((c, r)) }
+    };
+    if !is_seq_target {
+        // lengths
+        for (cl, c) in &rep_chars {
+            for &l in &lens { add(case1(std::iter::repeat(*c).take(l).collect(), format!("len:{}^{}", cl, l))); }
+        }
+        // exact fill / overflow of buffers, in bytes (cap-2 .. cap+2 with one- and two-byte tails)
+        if let (_, Some(cap)) = t.geometry() {
+            for n in [cap.saturating_sub(2), cap - 1, cap, cap + 1, cap + 2] {
+                add(case1("a".repeat(n), format!("fill:a^{}", n)));
+                if n >= 2 { add(case1("a".repeat(n - 2) + "\u{30BD}", format!("fill:a^{}+U+30BD", n - 2))); }
+                if n >= 1 { add(case1("a".repeat(n - 1) + "\u{FF71}", format!("fill:a^{}+U+FF71", n - 1))); }
+            }
+        }
+        // unencodable characters
+        for &u in &unenc {
+            add(case1(u.to_string(), format!("unencodable:{}", ulabel(u))));
+            add(case1(format!("ab{}c", u), format!("unencodable:ab+{}+c", ulabel(u))));
+        }
+    }
+    if t.furibug() || is_seq_target || t.name.starts_with("msg-user/th10:z(bs=4)") {
+        // sequences of <= 3 consecutive strings with / without the furigana marker
+        let alpha = ["|ab", "|\u{30BD}", "abc", "\u{30BD}", "", "|", "|abcdefg", "\u{FF71}"];
+        let n = alpha.len();
+        for len in 1..=3usize {
+            for mut code in 0..n.pow(len as u32) {
+                let mut strs = vec![];
+                let mut idx = vec![];
+                for _ in 0..len { idx.push(code % n); strs.push(alpha[code % n].to_string()); code /= n; }
+                let label = format!("seq:{}", idx.iter().map(|i| i.to_string()).collect::<Vec<_>>().join("."));
+                add(Case { strs, label, corrupt: false });
+            }
+        }
+        // a long furigana line followed by a short line (carried bytes make the next blob large)
+        for &l in &lens {
+            add(Case { strs: vec![format!("|{}", "a".repeat(l)), "b".into()], label: format!("seq:|a^{}+b", l), corrupt: false });
+            add(Case { strs: vec![format!("|{}", "\u{30BD}".repeat(l / 2)), "|\u{30BD}".into(), "b".into()], label: format!("seq:|U+30BD^{}+|U+30BD+b", l / 2), corrupt: false });
+        }
+    }
+    (ok, errs)
+}
+
+/// The character sweep of a target for a slice of the character table: 'a'^p . c and c . 'a'.
+/// Strings that do not fit the target are not part of the sweep (buffer overflow is covered by `fill:`),
+/// nor are strings already enumerated by the small families.
+fn sweep_cases(t: &Target, chars: &[Ch], thorough: bool, already: &HashSet<String>) -> Vec<Case> {
+    let mut out: Vec<Case> = vec![];
+    let mut seen: HashSet<String> = HashSet::new();
+    let (bs, _) = t.geometry();
+    let mut add = |c: Case| {
+        if already.contains(&c.strs[0]) || !seen.insert(c.strs[0].clone()) { return; }
+        if expectation(t, &c).is_ok() { out.push(c); }
+    };
+    for ch in chars {
+        let cl = ulabel(ch.c);
+        for &p in &t.ps { add(case1("a".repeat(p) + &ch.c.to_string(), format!("{}:p{}", cl, p))); }
+        if bs.is_some() { add(case1(format!("{}a", ch.c), format!("{}:then-a", cl))); }
+        if thorough {
+            // the character after / before a two-byte character whose trail byte is 0x5C, and after a half-width kana
+            add(case1(format!("\u{30BD}{}", ch.c), format!("{}:after-U+30BD", cl)));
+            add(case1(format!("a\u{30BD}{}", ch.c), format!("{}:after-a+U+30BD", cl)));
+            add(case1(format!("{}\u{30BD}", ch.c), format!("{}:then-U+30BD", cl)));
+            add(case1(format!("\u{FF71}{}\u{FF71}", ch.c), format!("{}:between-U+FF71", cl)));
+        }
+    }
+    out
+}
+
+/// Characters whose bytes are "dangerous" somewhere (quote, backslash, pipe, lowest/highest trail bytes,
+/// bytes equal to a mask byte, bytes next to 0x00/0x80), used for the exhaustive ordered-pair family.
+fn specials(chars: &[Ch]) -> Vec<Ch> {
+    let single = [0x01u8, 0x09, 0x0A, 0x0D, 0x1F, 0x20, 0x22, 0x5C, 0x7C, 0x77, 0x7E, 0x7F, 0x80, 0xA1, 0xAA, 0xB1, 0xDD, 0xDF];
+    let trail = [0x40u8, 0x5C, 0x77, 0x7C, 0x7E, 0x80, 0xFC];
+    chars.iter().filter(|ch| match ch.bytes.len() {
+        1 => single.contains(&ch.bytes[0]),
+        _ => trail.contains(&ch.bytes[1]),
+    }).cloned().collect()
+}
+
+fn pair_cases(t: &Target, first: &[Ch], all: &[Ch], already: &HashSet<String>) -> Vec<Case> {
+    let mut out = vec![];
+    for a in first {
+        for b in all {
+            let c = case1(format!("{}{}", a.c, b.c), format!("pair:{}+{}", ulabel(a.c), ulabel(b.c)));
+            if already.contains(&c.strs[0]) { continue; }
+            if expectation(t, &c).is_ok() { out.push(c); }
+        }
+    }
+    out
+}
+
+const SWEEP_CHUNK: usize = 64;
+
+// =============================================================================================
+
+pub fn run(tier: &str) -> Report {
+    let mut rep = Report::new("C15", tier, "model_checking");
+    let thorough = rep.is_thorough();
+    rep.rule = "the string touches a block or buffer boundary (its byte length, or length+1, is a multiple of the block size / reaches the buffer capacity) or contains a two-byte character".into();
+    let chars = charset();
+    let ts = targets();
+
+    // ---- character classes present (evidence that the dangerous bytes are in the sweep)
+    let mut classes: BTreeMap<String, u64> = BTreeMap::new();
+    let mut trail: BTreeMap<String, u64> = BTreeMap::new();
+    let mask_head = mask_bytes((0x77, 7, 16), 8);
+    for ch in &chars {
+        *classes.entry(ch.class.to_string()).or_insert(0) += 1;
+        if ch.bytes.len() == 2 {
+            let tb = ch.bytes[1];
+            let k = match tb { 0x5C => "trail=0x5C(backslash)", 0x7C => "trail=0x7C(pipe)", 0x40 => "trail=0x40(lowest)", 0x7E => "trail=0x7E", 0x80 => "trail=0x80", 0xFC => "trail=0xFC(highest)", _ => "" };
+            if !k.is_empty() { *trail.entry(k.to_string()).or_insert(0) += 1; }
+            if mask_head.contains(&tb) || [0x77u8, 0xaa, 0xbb, 0xdd, 0xee].contains(&tb) { *trail.entry("trail-equals-a-mask-byte".into()).or_insert(0) += 1; }
+            if mask_head.contains(&ch.bytes[0]) || [0xaau8, 0xbb, 0xdd, 0xee].contains(&ch.bytes[0]) { *trail.entry("lead-equals-a-mask-byte".into()).or_insert(0) += 1; }
+        }
+    }
+    rep.extra.insert("character_classes".into(), json!(classes));
+    rep.extra.insert("two_byte_trail_classes".into(), json!(trail));
+    rep.extra.insert("characters_total".into(), json!(chars.len()));
+    rep.extra.insert("unencodable_probe_set".into(), json!(unencodable_candidates().iter().map(|c| ulabel(*c)).collect::<Vec<_>>()));
+    rep.extra.insert("targets".into(), json!(ts.iter().map(|t| t.name.clone()).collect::<Vec<_>>()));
+
+    // ---- work list: small families of every target first (simplest first), then the character sweeps
+    let t_plan = std::time::Instant::now();
+    let mut work: Vec<Work> = vec![];
+    let mut already: Vec<HashSet<String>> = vec![];
+    for (ti, t) in ts.iter().enumerate() {
+        let (ok, errs) = small_cases(t, thorough);
+        already.push(ok.iter().chain(errs.iter().map(|(c, _)| c)).filter(|c| c.strs.len() == 1).map(|c| c.strs[0].clone()).collect());
+        for chunk in ok.chunks(t.batch.max(1)) { work.push(Work::Cases { t: ti, cases: chunk.to_vec(), expect: Ok(()) }); }
+        for (c, r) in errs { work.push(Work::Cases { t: ti, cases: vec![c], expect: Err(r) }); }
+    }
+    for (ti, t) in ts.iter().enumerate() {
+        if t.ops.len() > 1 { continue; }
+        let mut lo = 0;
+        while lo < chars.len() { let hi = (lo + SWEEP_CHUNK).min(chars.len()); work.push(Work::Sweep { t: ti, lo, hi }); lo = hi; }
+    }
+    let spec = specials(&chars);
+    rep.extra.insert("pair_family_alphabet_size".into(), json!(spec.len()));
+    for (ti, t) in ts.iter().enumerate() {
+        if t.ops.len() > 1 || !(thorough || t.pairs_quick) { continue; }
+        let mut lo = 0;
+        while lo < spec.len() { let hi = (lo + 2).min(spec.len()); work.push(Work::Pairs { t: ti, lo, hi }); lo = hi; }
+    }
+    // thorough: every BMP scalar value that Shift-JIS cannot encode must be rejected (one encoding)
+    if thorough {
+        for cp in 1u32..=0xFFFF {
+            if let Some(c) = char::from_u32(cp) {
+                if sjis_encode(&c.to_string()).is_none() {
+                    work.push(Work::Cases { t: 0, cases: vec![case1(c.to_string(), format!("unencodable-bmp:{}", ulabel(c)))], expect: Err(Reject::Unencodable) });
+                }
+            }
+        }
+    }
+    if std::env::var("VERIF_C15_SELFTEST_CORRUPT").map(|v| v == "1").unwrap_or(false) {
+        for w in work.iter_mut() {
+            if let Work::Cases { cases, expect: Ok(()), .. } = w { if cases.len() > 3 { cases[3].corrupt = true; break; } }
+        }
+        rep.assumptions.push("SELFTEST: VERIF_C15_SELFTEST_CORRUPT=1 corrupted one expected string on purpose".into());
+    }
+    rep.extra.insert("plan_seconds".into(), json!(t_plan.elapsed().as_secs_f64()));
+
+    let deadline = rep.deadline();
+    let t_run = std::time::Instant::now();
+    let results = par_map(&work, Some(deadline), |_, w| {
+        let mut out = Out::default();
+        match w {
+            Work::Cases { t, cases, expect } => {
+                let t = &ts[*t];
+                out.cases += cases.len() as u64;
+                out.nontrivial += cases.iter().filter(|c| nontrivial(t, c)).count() as u64;
+                match expect {
+                    Ok(()) => run_ok(t, cases, &mut out),
+                    Err(r) => run_err(t, &cases[0], *r, &mut out),
+                }
+            },
+            Work::Sweep { .. } | Work::Pairs { .. } => {
+                let (t, cases) = match w {
+                    Work::Sweep { t, lo, hi } => (t, sweep_cases(&ts[*t], &chars[*lo..*hi], thorough, &already[*t])),
+                    Work::Pairs { t, lo, hi } => (t, pair_cases(&ts[*t], &spec[*lo..*hi], &spec, &already[*t])),
+                    _ => unreachable!(),
+                };
+                let t = &ts[*t];
+                out.cases += cases.len() as u64;
+                out.nontrivial += cases.iter().filter(|c| nontrivial(t, c)).count() as u64;
+                for chunk in cases.chunks(t.batch.max(1)) { run_ok(t, chunk, &mut out); }
+            },
+        }
+        out
+    });
+    rep.extra.insert("run_seconds".into(), json!(t_run.elapsed().as_secs_f64()));
+
+    let mut total = Out::default();
+    let mut not_run = 0u64;
+    let mut samples_by_family: BTreeMap<&'static str, Vec<Value>> = BTreeMap::new();
+    let mut oversize_by_target: BTreeMap<String, u64> = BTreeMap::new();
+    let mut per_family: BTreeMap<String, u64> = BTreeMap::new();
+    let mut per_target: BTreeMap<String, u64> = BTreeMap::new();
+    for (w, r) in work.iter().zip(results) {
+        let (ti, is_err) = match w { Work::Cases { t, expect, .. } => (*t, expect.is_err()), Work::Sweep { t, .. } | Work::Pairs { t, .. } => (*t, false) };
+        match r {
+            None => not_run += 1,
+            Some(mut o) => {
+                let fam = if matches!(w, Work::Cases { cases, .. } if cases[0].label.starts_with("unencodable-bmp:")) { "unencodable-bmp-sweep" } else if matches!(w, Work::Pairs { .. }) { "ordered-pairs-of-special-characters" } else { ts[ti].family };
+                *per_family.entry(fam.to_string()).or_insert(0) += o.cases;
+                *per_target.entry(ts[ti].name.clone()).or_insert(0) += o.cases;
+                if let Some(s) = o.sample.take() {
+                    let v = samples_by_family.entry(fam).or_default();
+                    if v.len() < 2 || (is_err && v.len() < 3) { v.push(s); }
+                }
+                for (sig, _) in &o.fails { if sig.starts_with("C15:oversize-accepted") { *oversize_by_target.entry(ts[ti].name.clone()).or_insert(0) += 1; } }
+                total.merge(o);
+            },
+        }
+    }
+    for (_, v) in samples_by_family { for s in v { rep.sample(s); } }
+    rep.evaluations = total.strings;
+    rep.states = total.cases;
+    rep.transitions = total.compiles + total.decompiles;
+    rep.traces_validated = total.lit_cmp + total.byte_cmp;
+    rep.nontrivial = total.nontrivial;
+    for (k, v) in &total.outcomes { rep.outcome_n(k, *v); }
+    // smallest witness of each signature first (the first one becomes the replay file)
+    let mut fails = total.fails;
+    fails.sort_by_key(|(sig, d)| (sig.clone(), d["strs"].as_array().map(|a| a.iter().map(|s| s.as_str().map(|s| s.len()).unwrap_or(0)).sum::<usize>()).unwrap_or(0)));
+    for (sig, d) in fails { rep.fail(sig, d); }
+    let mut mach: Vec<String> = total.machinery; mach.sort(); mach.dedup();
+    for m in mach.into_iter().take(20) { rep.machinery_errors.push(m); }
+    rep.extra.insert("compile_invocations".into(), json!(total.compiles));
+    rep.extra.insert("decompile_invocations".into(), json!(total.decompiles));
+    rep.extra.insert("literal_comparisons".into(), json!(total.lit_cmp));
+    rep.extra.insert("byte_model_comparisons".into(), json!(total.byte_cmp));
+    rep.extra.insert("strings_with_a_text_byte_masked_to_0x00".into(), json!(total.masked_nul));
+    rep.extra.insert("cases_per_family".into(), json!(per_family));
+    rep.extra.insert("cases_per_target".into(), json!(per_target));
+    rep.extra.insert("oversize_accepted_per_target".into(), json!(oversize_by_target));
+    if not_run > 0 { rep.cap_hit = Some(format!("wall cap: {} of {} work items (batches / sweep chunks) not run", not_run, work.len())); }
+    rep.exhaustive = not_run == 0;
+    rep.bound_completed = format!(
+        "{} unambiguous Shift-JIS characters (every one- and two-byte code) x prefix positions {{per target}} x {} targets ({}); c^L for L in {} for c in {{a, U+30BD, U+FF71}}; buffer fill/overflow at cap-2..cap+2 bytes; all sequences of <= 3 strings over an 8-string furigana alphabet; {} unencodable probes{}",
+        chars.len(), ts.len(), if thorough { "plus each character after/before U+30BD and between U+FF71; ordered pairs of special characters on every target" } else { "ordered pairs of special characters on a subset of targets" },
+        if thorough { "0..=300".to_string() } else { format!("{:?}", QUICK_LENS) }, unencodable_candidates().len(),
+        if thorough { " + every unencodable BMP scalar value on z(bs=4)" } else { "" });
+    rep.assumptions.push("encoding_rs::SHIFT_JIS is the trusted character table (same library truth uses); 'represents unambiguously' = code -> char -> same code".into());
+    rep.assumptions.push("U+00A5, U+203E, U+2212 encode to bytes that decode to a different character: ambiguous, outside the property".into());
+    rep.assumptions.push("a MSG instruction stores its argument size in one byte, so a string whose argument blob exceeds 255 bytes 'does not fit' and must be rejected".into());
+    rep.assumptions.push("byte-level model (M7) is compared for MSG carriers and mission.msg; STD names, ANM paths and ANM-carried signatures are checked by the text round trip only".into());
+    rep.explanation = "Each case is written as a string literal into a real script/metadata source, compiled and decompiled in-process by truth; \
+the literal is recovered from the decompiled text by an independent scanner and compared character for character; for MSG/mission the emitted bytes are compared with an independently \
+computed encoding (SJIS + NUL + furigana carry-over + padding + accelerating XOR mask / fixed buffer / length prefix). Cases the model says cannot be encoded or do not fit must yield an error diagnostic.".into();
+    rep
+}
+
+fn find_target(name: &str) -> Option<Target> { targets().into_iter().find(|t| t.name == name) }
+
+pub fn replay(d: &Value) -> i32 {
+    let name = d["target"].as_str().unwrap_or("");
+    let t = match find_target(name) { Some(t) => t, None => { eprintln!("unknown target {name}"); return 2; } };
+    let mut out = Out::default();
+    if d["expect"] == "ok-batch" {
+        let cases: Vec<Case> = d["batch"].as_array().cloned().unwrap_or_default().iter().map(|c| Case {
+            strs: c["strs"].as_array().cloned().unwrap_or_default().iter().map(|s| s.as_str().unwrap_or("").to_string()).collect(),
+            label: c["label"].as_str().unwrap_or("").to_string(), corrupt: false }).collect();
+        let probs = run_ok_once(&t, &cases, &mut out);
+        for p in &probs { println!("batch problem: {} {}", p.kind, p.info); }
+        return if probs.is_empty() { 0 } else { 1 };
+    }
+    let c = Case {
+        strs: d["strs"].as_array().cloned().unwrap_or_default().iter().map(|s| s.as_str().unwrap_or("").to_string()).collect(),
+        label: d["label"].as_str().unwrap_or("").to_string(),
+        corrupt: d["selftest_corrupt"].as_bool().unwrap_or(false),
+    };
+    let built = build(&t, std::slice::from_ref(&c));
+    println!("target: {}\nmapfile:\n{}\nsource:\n{}", t.name, t.mapfile.clone().unwrap_or_default(), trunc(&built.src, 4000));
+    let exp = expectation(&t, &c);
+    println!("model expectation: {:?}", exp.map_err(|r| r.name()));
+    match exp {
+        Ok(()) => run_ok(&t, std::slice::from_ref(&c), &mut out),
+        Err(r) => run_err(&t, &c, r, &mut out),
+    }
+    for (sig, det) in &out.fails { println!("FAIL {}\n{}", sig, serde_json::to_string_pretty(det).unwrap_or_default()); }
+    for m in &out.machinery { println!("MACHINERY {}", m); }
+    println!("outcomes: {:?}", out.outcomes);
+    if out.fails.is_empty() { 0 } else { 1 }
+}
